@@ -12,3 +12,4 @@ import DafRel.Props.C03
 #print axioms DafRel.Props.C03.join_with_backtracking_and_transfer_sound
 #print axioms DafRel.Props.C03.join_with_every_option_sound
 #print axioms DafRel.Props.C03.bridge_commute_used_by_backtracking
+#print axioms DafRel.Props.C03.bridge_partial_join_begin_apply
